@@ -75,6 +75,9 @@ def check (st : St) (op obs : String) : St × String :=
          (st, s!"FAIL node {k} lost the primary role while an import was queued for the write lock; the request was answered with an error but the position moved from {p0} to {p1}")
        else (st, "ok")
      | _, _ => (st, "ok"))
+  | ["consul-acqex", k] =>
+    (st, if obs == "primary-exists" || obs == "bad-op" then "ok"
+         else s!"FAIL node {k} was handed a session that does not hold the lease service's key and its acquisition answered {obs.take 30}: a node must not take the primary role through a hand-over the lease service refuses")
   | ["pctx-take", k] => (if obs == "alive" then { st with taken := (k.toNat?.getD 0) :: st.taken } else st, "ok")
   | ["events"] =>
     if obs == "-" then (st, "ok") else
